@@ -7,7 +7,7 @@ from ..domains import Domain, is_mapping, is_tree
 
 
 def draw_cfg(rng, fams=None, kinds=None, impls=("c", "py"), hk=False,
-             p_stored=0.3, p_default_sizes=0.1):
+             p_stored=0.3, p_default_sizes=0.1, p_sub=0.0):
     fam = rng.choice(fams or domains.FAMILIES)
     kind = rng.choice(kinds or domains.KINDS)
     leaf, internal = domains.draw_sizes(rng, p_default_sizes)
@@ -17,6 +17,10 @@ def draw_cfg(rng, fams=None, kinds=None, impls=("c", "py"), hk=False,
            "leaf": leaf, "internal": internal,
            "stored": rng.random() < p_stored,
            "protocol": rng.choice([1, 2, 3, 3, 4, 5])}
+    if p_sub and rng.random() < p_sub:
+        # the container is an instance of a trivial user subclass of the
+        # package's class (its interior nodes too; its leaves are not)
+        cfg["dom"]["sub"] = True
     return cfg
 
 
@@ -277,7 +281,8 @@ def structural(c, dom, cfg, ctx, model_listing=None, check_sizes=True,
     except AssertionError as e:
         raise Violation(dict(base, oracle="_check"), "%s: _check(): %s" % (
             who, e))
-    if use_check_module:
+    if use_check_module and type(c).__module__.startswith("BTrees."):
+        # (check.check() refuses subclasses by design)
         from BTrees import check as checkmod
         try:
             checkmod.check(c)
